@@ -33,7 +33,7 @@ class CTRLInterface(UDPLink):
 
 	def handle_rx(self):
 		# Read data from socket
-		data, remote = self.sock.recvfrom(128)
+		data, remote = self.sock.recvfrom(1024)
 		try:
 			data = data.decode()
 		except UnicodeDecodeError:
